@@ -372,7 +372,7 @@ def exec_sut(sut, op, refs, model):
             acc = []
             base = dec(op["base"])
             for i_ in range(op["count"]):
-                r_ = t.create_webentity([base + b"p:%05d|" % i_])
+                r_ = t.create_webentity([base + b"p:%05d|" % ((i_ * 40503 + 7) % 65537 if op.get("spread") else i_)])
                 acc.extend(sorted((k_, tuple(sorted(v_))) for k_, v_ in r_.created_webentities.items()))
             return ("report", 0, tuple(acc))
         if k == "delete_we":
@@ -505,7 +505,7 @@ def exec_model(model, op, refs, observed):
             acc = []
             base = dec(op["base"])
             for i_ in range(op["count"]):
-                r_ = model.create_webentity([base + b"p:%05d|" % i_])
+                r_ = model.create_webentity([base + b"p:%05d|" % ((i_ * 40503 + 7) % 65537 if op.get("spread") else i_)])
                 acc.extend(sorted((k_, tuple(sorted(v_))) for k_, v_ in r_["we"].items()))
             return ("report", 0, tuple(acc)), None
         if k == "delete_we":
